@@ -1,4 +1,5 @@
 import MidoModel.Tables
+import MidoModel.Meta
 /-!
   Table tie: the tables extracted from the working tree on this run equal the model's.
   If the source tables change, one of these stops checking.
@@ -15,4 +16,12 @@ theorem tie_limits : Generated.limits =
      ("MAX_SONGPOS", 16383), ("SYSEX_START", 240), ("SYSEX_END", 247)] := by decide
 theorem tie_channel_range : Generated.channelRange = (0x80, 0xef) := by decide
 
+end Mido
+
+namespace Mido
+/-! meta tables -/
+theorem tie_meta_specs : Generated.metaSpecs =
+    MetaType.all.map (fun t => (t.typeByte, t.name, t.attrs)) := by decide
+theorem tie_keys : Generated.keySignatures = keyTable := by decide
+theorem tie_frame_rates : Generated.frameRates = frameRates := by decide
 end Mido
